@@ -66,6 +66,33 @@ class Sentinel(float):
     """a float subclass instance: identity shows that the caller's fallback is returned untouched"""
 
 
+def fallbacks():
+    """fresh fallback objects: truthy and falsy, both signs of zero, int and float, negative, huge (nan is out of scope)"""
+    return [Sentinel(4.25), 0.0, -0.0, 0, 2.5, -1.5, 1e308, 7, Sentinel(0.0)]
+
+
+def same_fallback(r, missing):
+    """'returns exactly the caller's fallback': the very object, hence same type, value and sign of zero"""
+    return r is missing and type(r) is type(missing) and repr(r) == repr(missing)
+
+
+def enc_missing(missing):
+    if missing is None:
+        return None, None
+    if isinstance(missing, Sentinel):
+        return float(missing), "sentinel"
+    return missing, type(missing).__name__     # JSON keeps 0 / 0.0 / -0.0 apart
+
+
+def dec_missing(case):
+    v, kind = case.get("missing"), case.get("missing_kind")
+    if v is None:
+        return None
+    if kind == "sentinel" or kind is None:
+        return Sentinel(v)
+    return int(v) if kind == "int" else float(v)
+
+
 def impl_get(cov, x, missing, rt, units):
     c, v = _objs()
     obj = c if cov else v
@@ -128,7 +155,8 @@ def oracle(rs, cov, x, missing, rt, units, out):
         return None if out == ("Err", "NotAnElementError") else f"non-atom identifier gave {out!r} instead of NotAnElementError"
     if exp[0] == "nodata":
         if missing is not None and not rt:
-            return None if (out[0] == "Ok" and out[1] is missing) else f"valid element {exp[1]} without radius: expected the caller's fallback object back, got {out!r}"
+            return None if (out[0] == "Ok" and same_fallback(out[1], missing)) else \
+                f"valid element {exp[1]} without radius: expected exactly the caller's fallback {missing!r} back, got {out!r}"
         return None if out == ("Err", "DataUnavailableError") else f"valid element {exp[1]} without radius: expected DataUnavailableError, got {out!r}"
     _, key, label, vstr, comment = exp
     if out[0] != "Ok":
@@ -163,6 +191,78 @@ def factor_sanity():
         elif not (isinstance(f, float) and abs(f / w - 1.0) < 1e-12):
             bad.append(f"conversion_factor(angstrom, {u}) = {f!r}, expected {w!r}")
     return bad
+
+
+# ------------------------------------------------------------------------------------------------
+# history: get() resolves through the module-level periodic table; no call may leave state behind.  Float identifiers are
+# outside the model: issued as history-makers only, their own answers are not judged.
+
+def _case(cov, x, missing, rt, units, hist=None):
+    mv, mk = enc_missing(missing)
+    c = {"table": "covalent" if cov else "vdw", "atom": x, "missing": mv, "missing_kind": mk, "return_tuple": rt, "units": units}
+    if hist is not None:
+        c["history"] = hist
+    return c
+
+
+def run_sequences(ctx, rs, corr):
+    groups = c01.collision_groups(ctx, rs.pt)
+    for g in groups:
+        perm = list(g)
+        ctx.rng.shuffle(perm)
+        for seq in (perm, perm[::-1]):
+            for i, x in enumerate(seq):
+                for cov in (True, False):
+                    out = impl_get(cov, x, None, False, "bohr")
+                    corr.count("history-sequences")
+                    if isinstance(x, float):
+                        c01._ISSUED_FLOATS.append(x)
+                        continue
+                    bad = oracle(rs, cov, x, None, False, "bohr", out)
+                    if bad:
+                        corr.failures.append({"stream": "history", "case": _case(cov, x, None, False, "bohr", seq[:i]),
+                                              "what": bad + "  [after the earlier calls listed in case.history]", "observed": repr(out)})
+    return groups
+
+
+def run_history_replay(ctx, rs, corr, memo, idents, fallback):
+    import qcelemental
+    rng = ctx.rng
+    makers = list(c01.FLOAT_MAKERS) + [float(z) for z in rng.sample(range(0, 118), 25)] + list(range(0, 118, 9)) + ["kr84", "KR", "Hydrogen", "d", " 1 ", "+1"]
+    for m in makers:
+        impl_get(True, m, None, False, "bohr")
+        impl_get(False, m, fallback, False, "angstrom")
+        for f in (qcelemental.periodictable.to_E, qcelemental.periodictable.to_Z):
+            try:
+                f(m)
+            except Exception:  # noqa: BLE001
+                pass
+        if isinstance(m, float):
+            c01._ISSUED_FLOATS.append(m)
+        corr.count("history-makers")
+    targets = [x for x in c01.CORPUS_INVALID + c01.CORPUS_INTFORMS if not (isinstance(x, str) and len(x) > 100)]
+    for m in makers:
+        if isinstance(m, float):
+            t = str(m)
+            targets += [t, " " + t, t + " ", "+" + t, str(int(m)) + ".", str(int(m)) + ".00"]
+    earlier = [x for _s, x in idents]
+    rng.shuffle(earlier)
+    targets += earlier if ctx.thorough else earlier[:1200]
+    for x in targets:
+        if isinstance(x, float):
+            continue
+        for cov in (True, False):
+            for missing, rt, units in ((None, False, "bohr"), (fallback, False, "angstrom"), (None, True, "bohr")):
+                out = impl_get(cov, x, missing, rt, units)
+                corr.count("history-replay")
+                bad = oracle(rs, cov, x, missing, rt, units, out)
+                first = memo.get((cov, type(x).__name__, x, enc_missing(missing), rt, units))
+                if not bad and first is not None and first != repr(out):
+                    bad = f"the same call was answered differently later in the run (state kept between calls): first {first}, now {out!r}"
+                if bad:
+                    coll = [m for m in makers if c01.norm_id(m) == c01.norm_id(x)]
+                    corr.failures.append({"stream": "history", "case": _case(cov, x, missing, rt, units, coll or makers),
+                                          "what": bad + "  [after the earlier calls listed in case.history]", "observed": repr(out)})
 
 
 # ------------------------------------------------------------------------------------------------
@@ -228,7 +328,9 @@ def correspond(ctx):
     corr = Corr()
     corr.rule = ("exhaustive: every element of the periodic table (tabulated or not) x {int Z, str Z, symbol, name, a nuclide label} x letter "
                  "cases, every source-table label (+ wrong-case spellings), invalid identifiers; each x units {bohr, angstrom, pm, nm, m} x "
-                 "missing {None, float} x return_tuple, for both radius sets; the constructed dictionaries entry by entry; Datum.to_units "
+                 "missing {None, float} x return_tuple, for both radius sets; HISTORY streams (colliding identifiers incl. float history-makers in both "
+                 "orders before anything else, then after float/int/string history-makers the invalid stream and a shuffled sample of earlier calls "
+                 "re-issued, judged by the oracle and compared with the first answer); the constructed dictionaries entry by entry; Datum.to_units "
                  "over unit pairs and float/Decimal/array payloads. non-trivial = the call returned a radius (number or Datum); distinct = distinct calls")
     try:
         rs = RSpec(ctx.repo)
@@ -238,40 +340,73 @@ def correspond(ctx):
     for msg in factor_sanity():
         corr.failures.append({"stream": "oracle", "case": {"kind": "factor"}, "what": msg, "observed": msg})
     idents = identifiers(ctx, rs)
+    # history first: related identifiers (int, float, digit/decimal/blank strings, labels spelt validly and invalidly) in both orders
+    groups = run_sequences(ctx, rs, corr)
+    ctx.log(f"history sequences: {corr.streams.get('history-sequences', 0)} get() calls over {len(groups)} groups x 2 orders; {len(corr.failures)} failures")
+    have = {(type(x).__name__, x) for _s, x in idents}
+    for g in groups:  # the members also go through the model below
+        for x in g:
+            if not isinstance(x, float) and (type(x).__name__, x) not in have:
+                have.add((type(x).__name__, x))
+                idents.append(("history-members", x))
+    memo = {}
     terms, meta = [], []
     fallback = Sentinel(4.25)
+    nident = 0
+    plan = []   # (stream, identifier, covalent?, [(missing, return_tuple, units)])
     for stream, x in idents:
         for cov in (True, False):
-            combos = [(None, False, u) for u in UNITS] + [(fallback, False, u) for u in UNITS] + \
-                     [(None, True, "bohr"), (fallback, True, "angstrom")]
-            for missing, rt, units in combos:
-                out = impl_get(cov, x, missing, rt, units)
-                corr.count(stream)
-                if out[0] == "Ok" and out[1] is not missing:
-                    corr.nontriv([stream, cov, repr(x), rt, units, missing is not None])
-                    corr.hit("datum" if rt else "value")
-                elif out[0] == "Ok":
-                    corr.hit("fallback")
-                else:
-                    corr.hit("raised_" + out[1])
-                bad = oracle(rs, cov, x, missing, rt, units, out)
-                case = {"table": "covalent" if cov else "vdw", "atom": x, "missing": None if missing is None else float(missing),
-                        "return_tuple": rt, "units": units}
-                if bad:
-                    corr.failures.append({"stream": "oracle", "case": case, "what": bad, "observed": repr(out)})
-                if isinstance(x, str) and not x.isascii():
-                    continue
-                want = rexp_term(out, missing)
-                if want is None:
-                    if not bad:
-                        corr.failures.append({"stream": "oracle", "case": case, "what": "non-canonical result type", "observed": repr(out)})
-                    continue
-                f = factor(rs.units[cov], units)
-                terms.append(f"({cbool(cov)}, {c01.cval(x)}, {cbool(missing is not None)}, {cbool(rt)}, {cq(Fraction(f))}, {want})")
-                meta.append((stream, case, out))
-                if ctx.rng.random() < 0.00015:
-                    corr.sample({"case": case, "implementation": repr(out)})
+            fbs = fallbacks()
+            combos = [(None, False, u) for u in UNITS] + [(fbs[(j + nident) % len(fbs)], False, u) for j, u in enumerate(UNITS)] + \
+                     [(None, True, "bohr"), (fallback, True, "angstrom"), (0.0, True, "bohr")]
+            if not ctx.thorough:  # quick tier: two fallbacks (one of them falsy: 0.0 / -0.0 / 0 in turn) with two of the five units
+                combos = [(None, False, u) for u in UNITS] + [(fallback, False, "bohr"), (fbs[1 + nident % 3], False, "pm"),
+                                                              (None, True, "bohr"), (fbs[nident % len(fbs)], True, "angstrom")]
+            nident += 1
+            if stream == "history-members":
+                combos = [(None, False, "bohr"), (fallback, False, "angstrom"), (None, True, "bohr")]
+            plan.append((stream, x, cov, combos))
+    # every fallback value (truthy, falsy, both zeros, int/float, negative, huge) for every element, tabulated or not,
+    # both radius sets, return_tuple on and off
+    for z, e, n in rs.pt.elements:
+        for x in ([e, z, n.lower()] if ctx.thorough else [e] + ([z] if z % 4 == 0 else [])):
+            for cov in (True, False):
+                plan.append(("fallbacks", x, cov, [(fb, rt, "bohr") for fb in fallbacks() for rt in (False, True)]))
+    for stream, x, cov, combos in plan:
+        for missing, rt, units in combos:
+            out = impl_get(cov, x, missing, rt, units)
+            memo[(cov, type(x).__name__, x, enc_missing(missing), rt, units)] = repr(out)
+            corr.count(stream)
+            if missing is not None and not missing:
+                corr.hit("falsy_fallback_given")
+            if out[0] == "Ok" and out[1] is not missing:
+                corr.nontriv([stream, cov, repr(x), rt, units, missing is not None])
+                corr.hit("datum" if rt else "value")
+            elif out[0] == "Ok":
+                corr.hit("fallback")
+            else:
+                corr.hit("raised_" + out[1])
+            bad = oracle(rs, cov, x, missing, rt, units, out)
+            case = _case(cov, x, missing, rt, units, c01.collide_history(x))
+            if bad:
+                corr.failures.append({"stream": "oracle", "case": case, "what": bad, "observed": repr(out)})
+            if isinstance(x, str) and not x.isascii():
+                continue
+            want = rexp_term(out, missing)
+            if want is None:
+                if not bad:
+                    corr.failures.append({"stream": "oracle", "case": case, "what": "non-canonical result type", "observed": repr(out)})
+                continue
+            f = factor(rs.units[cov], units)
+            terms.append(f"({cbool(cov)}, {c01.cval(x)}, {cbool(missing is not None)}, {cbool(rt)}, {cq(Fraction(f))}, {want})")
+            meta.append((stream, case, out))
+            if ctx.rng.random() < 0.00015:
+                corr.sample({"case": case, "implementation": repr(out)})
     corr.sample({"case": {"table": "covalent", "atom": "c", "units": "bohr"}, "implementation": repr(impl_get(True, "c", None, False, "bohr"))})
+    nf = len(corr.failures)
+    run_history_replay(ctx, rs, corr, memo, idents, fallback)
+    ctx.log(f"history replay: {corr.streams.get('history-replay', 0)} get() calls re-issued after {corr.streams.get('history-makers', 0)} "
+            f"history-makers; {len(corr.failures) - nf} failures")
     ctx.log(f"{len(terms)} get() calls through the implementation and the oracle ({len(corr.failures)} oracle failures); evaluating the model")
     bad, errors = c01.eval_cases("C17", REQ, "check_get", terms, max(300, len(terms) // 48 + 1), "bool * pyval * bool * bool * Q * rexp")
     corr.errors.extend(f"shard {k}: {e}" for k, e in errors)
@@ -318,7 +453,7 @@ def correspond(ctx):
         f = factor(a, b)
         for p in payloads:
             corr.count("to_units")
-            r = Datum("x", a, p).to_units(b)
+            r = safe_to_units(a, p, b)
             want = f * float(p)
             case = {"kind": "to_units", "from": a, "to": b, "payload": repr(p)}
             if not isinstance(r, float) or r.hex() != want.hex():
@@ -328,13 +463,20 @@ def correspond(ctx):
             if isinstance(r, float) and math.isfinite(r):
                 uterms.append(f"({cq(Fraction(f))}, {cq(Fraction(p))}, {cq(Fraction(r))})")
         arr = np.array([[0.5, -1.25, 3.0], [ctx.rng.uniform(-9, 9), 0.0, 1e-3]])
-        r = Datum("x", a, arr).to_units(b)
+        r = safe_to_units(a, arr, b)
         corr.count("to_units")
         if not (isinstance(r, np.ndarray) and r.shape == arr.shape and np.array_equal(r, f * arr)):
             corr.failures.append({"stream": "oracle", "case": {"kind": "to_units", "from": a, "to": b, "payload": arr.tolist()},
                                   "what": "array payload is not scaled elementwise by the factor", "observed": repr(r)})
-        r0 = Datum("x", a, arr).to_units()
-        if not np.array_equal(r0, arr):
+        for p in [arr.copy(), np.array([1.0, 2.0, 4.0]), payloads[3], payloads[6], payloads[-1], payloads[-2]]:
+            corr.count("to_units-repeat")
+            msg = to_units_repeat(a, b, p)
+            if msg:
+                corr.failures.append({"stream": "oracle", "case": {"kind": "to_units_repeat", "from": a, "to": b,
+                                                                   "payload": p.tolist() if isinstance(p, np.ndarray) else repr(p)},
+                                      "what": msg, "observed": msg})
+        r0 = safe_to_units(a, arr)
+        if not (isinstance(r0, np.ndarray) and np.array_equal(r0, arr)):
             corr.failures.append({"stream": "oracle", "case": {"kind": "to_units", "from": a, "to": None, "payload": arr.tolist()},
                                   "what": "to_units() without target changed the data", "observed": repr(r0)})
     bad, errors = c01.eval_cases("C17units", REQ, "check_to_units", uterms, 500, "Q * Q * Q")
@@ -346,10 +488,67 @@ def correspond(ctx):
     return corr
 
 
+def to_units_repeat(a, b, p):
+    try:
+        return _to_units_repeat(a, b, p)
+    except Exception as e:  # noqa: BLE001 - an exception from to_units is itself the finding
+        return f"Datum construction / to_units raised {type(e).__name__}: {e}"
+
+
+def safe_to_units(a, p, b=None):
+    """Datum('x', a, p).to_units(b); an exception becomes a value that compares unequal to everything expected"""
+    from qcelemental import Datum
+    try:
+        d = Datum("x", a, p)
+        return d.to_units(b) if b is not None else d.to_units()
+    except Exception as e:  # noqa: BLE001
+        return RuntimeError(f"raised {type(e).__name__}: {e}")
+
+
+def _to_units_repeat(a, b, p):
+    """One Datum converted several times (history): every conversion must give the same answer as the first, the
+    Datum's own data and the caller's payload object must be unchanged afterwards.  Returns None or a description."""
+    from qcelemental import Datum
+    is_arr = isinstance(p, np.ndarray)
+    keep = p.copy() if is_arr else p
+    d = Datum("x", a, p)
+    f, fback = factor(a, b), factor(a, a)
+    want = f * (keep if is_arr else float(keep))
+
+    def same(r, w):
+        if is_arr:
+            return isinstance(r, np.ndarray) and r.shape == w.shape and np.array_equal(r, w)
+        return isinstance(r, float) and r.hex() == float(w).hex()
+
+    for k in range(3):
+        r = d.to_units(b)
+        if not same(r, want):
+            return f"conversion #{k + 1} of the same Datum gave {r!r}, expected factor*data = {want!r}"
+        r0 = d.to_units()
+        if not same(r0, fback * (keep if is_arr else float(keep))):
+            return f"after {k + 1} conversion(s) to_units() in the Datum's own unit gives {r0!r}, data was {keep!r}"
+        if is_arr:
+            if not np.array_equal(d.data, keep) or not np.array_equal(p, keep):
+                return f"after {k + 1} conversion(s) the Datum's data / the caller's array changed to {d.data!r}"
+            if r is d.data or r is p:
+                return "to_units returned the Datum's own array object (later writes would change the Datum)"
+        elif type(d.data) is not type(keep) or d.data != keep or repr(d.data) != repr(keep):
+            return f"after {k + 1} conversion(s) the Datum's data changed to {d.data!r}"
+    return None
+
+
 def _run_case(rs, case):
     if case.get("kind") == "factor":
         msgs = factor_sanity()
         return {"oracle": msgs[0] if msgs else None, "implementation": msgs}
+    if case.get("kind") == "to_units_repeat":
+        p = case["payload"]
+        if isinstance(p, str):
+            p = Decimal(p[len("Decimal('"):-2]) if p.startswith("Decimal('") else float(p)
+        elif isinstance(p, list):
+            p = np.array(p)
+        msg = to_units_repeat(case["from"], case["to"], p)
+        return {"oracle": msg, "implementation": msg}
     if case.get("kind") == "to_units":
         from qcelemental import Datum
         p = case["payload"]
@@ -357,13 +556,15 @@ def _run_case(rs, case):
             p = Decimal(p[len("Decimal('"):-2]) if p.startswith("Decimal('") else float(p)
         elif isinstance(p, list):
             p = np.array(p)
-        r = Datum("x", case["from"], p).to_units(case["to"])
+        r = safe_to_units(case["from"], p, case["to"])
         f = factor(case["from"], case["to"] or case["from"])
         want = f * (p if isinstance(p, np.ndarray) else float(p))
         ok = np.array_equal(r, want) if isinstance(p, np.ndarray) else (isinstance(r, float) and r.hex() == want.hex())
         return {"oracle": None if ok else f"to_units gave {r!r}, expected {want!r}", "implementation": repr(r)}
     cov = case["table"] == "covalent"
-    missing = None if case["missing"] is None else Sentinel(case["missing"])
+    missing = dec_missing(case)
+    for h in case.get("history") or []:  # history-makers: their own answers are not judged
+        impl_get(cov, h, None, False, "bohr")
     out = impl_get(cov, case["atom"], missing, case["return_tuple"], case["units"])
     return {"oracle": oracle(rs, cov, case["atom"], missing, case["return_tuple"], case["units"], out), "implementation": repr(out)}
 
@@ -381,6 +582,9 @@ def search(ctx, corr, reasons):
                 for units in UNITS:
                     cases.append({"table": "covalent" if cov else "vdw", "atom": x, "missing": None, "return_tuple": False, "units": units})
                 cases.append({"table": "covalent" if cov else "vdw", "atom": x, "missing": 4.25, "return_tuple": False, "units": "bohr"})
+                for mv, mk in ((0.0, "float"), (-0.0, "float"), (0, "int")):
+                    cases.append({"table": "covalent" if cov else "vdw", "atom": x, "missing": mv, "missing_kind": mk,
+                                  "return_tuple": False, "units": "bohr"})
                 cases.append({"table": "covalent" if cov else "vdw", "atom": x, "missing": None, "return_tuple": True, "units": "bohr"})
     for case in cases:
         r = _run_case(rs, case)
